@@ -7,6 +7,7 @@
 //! Exit codes: 0 held on everything observed, 1 violation, 2 inconclusive.
 
 mod catalog;
+mod classify;
 mod corpus;
 mod encwl;
 mod json;
